@@ -8,5 +8,7 @@ CONSTANTS
   MaxRegs = 2
   CapIncC = 1
   MaxSteps = 9
+  Ops = {"Create", "Remove", "Exchange", "SetVal", "SetRel", "BatchExchange", "BatchSetRel", "BatchRemove", "Reset", "Register", "Unregister"}
+  EmitEvery = 1
 INVARIANTS EmitSome Struct Flags CacheOK Refines IssuedOnce PanicAgrees CacheSelects
 CHECK_DEADLOCK FALSE
